@@ -327,15 +327,7 @@ def run(ctx):
     ctx.check(ok, 'R5', 'get_network is the smallest network starting at start_addr widened until it contains end_addr',
               key=('R5', 'get-network'), site=ctx.site(gn, gn.node))
     fe = ctx.func('message.PayloadNOTIFY.from_exception')
-    FE = ctx.sval(fe)
-    note = FE.ret()
-    nt = tq.args(note).get('notification_type', NONE) if tq.is_call(note, 'new message.PayloadNOTIFY') else NONE
-    tab = {}
-    for d_ in tq.find(nt, lambda x: x[0] == 'dict'):
-        for e in d_[1]:
-            if len(e) == 2:
-                tab[tq.text(e[0]).split('.')[-1]] = tq.text(e[1]).split('.')[-1]
-    ctx.check(tab.get('TsUnacceptable') == 'TS_UNACCEPTABLE', 'R5', 'TsUnacceptable -> TS_UNACCEPTABLE', key=('R5', 'table'), site=ctx.site(fe, fe.node))
+    ctx.check(common.notify_type_of(ctx, 'TsUnacceptable') == 'TS_UNACCEPTABLE', 'R5', 'TsUnacceptable -> TS_UNACCEPTABLE', key=('R5', 'table'), site=ctx.site(fe, fe.node))
     ok = False
     for pc, t, _ in Q.returns:
         caught = [a[0] for a in pc if a[0][0] == 'caught' and a[1]]
